@@ -136,7 +136,11 @@ def job_roundtrip(jc, spec):
         s = sdi.get()
         if isinstance(s, str):
             s = SStr.of(s)
-        return sym_utf16(s), f.tell(), 1 + len(enc) + 1, sdi.get_utf16_size(), len(sdi.get_data())
+        # the file-level listing must give the same text (DEX.get_strings over the string items)
+        holder = type('D', (), {'strings': [sdi]})()
+        listed = dex.DEX.get_strings(holder)
+        l0 = SStr.of(listed[0]) if isinstance(listed[0], str) else listed[0]
+        return sym_utf16(s), f.tell(), 1 + len(enc) + 1, sdi.get_utf16_size(), len(sdi.get_data()), (len(listed), sym_utf16(l0))
 
     def ext(m):
         return dict(kind='roundtrip', units=[mval(m, u) for u in U])
@@ -145,9 +149,10 @@ def job_roundtrip(jc, spec):
         if kind == 'exc':
             jc.obligation(eng, pc, z3.BoolVal(False), ext, label=label, what='decoding raised %s' % type(r).__name__)
             continue
-        units, pos, want_pos, usz, dlen = r
+        units, pos, want_pos, usz, dlen, (nlisted, lunits) = r
         ob = z3.And([z3.BoolVal(len(units) == k and pos == want_pos and usz == k and dlen == want_pos - 1)] +
-                    [bv(a) == b.e for a, b in zip(units, U)])
+                    [bv(a) == b.e for a, b in zip(units, U)] +
+                    [z3.BoolVal(nlisted == 1 and len(lunits) == k)] + [bv(a) == b.e for a, b in zip(lunits, U)])
         jc.obligation(eng, pc, ob, ext, label=label, what='decoded text is not the UTF-16 sequence the MUTF-8 bytes encode')
     eng.partition_guard()
     jc.sample(dict(case=label, paths=eng.st.paths))
@@ -254,7 +259,11 @@ def _decode_item(dex, units):
     enc = enc_units(units)
     f = dex.io.BytesIO(bytes([len(units)]) + enc + b'\x00\x5a')
     sdi = dex.StringDataItem(f, common.SymCM(dex))
-    return utf16(sdi.get()), f.tell()
+    got = utf16(sdi.get())
+    listed = dex.DEX.get_strings(type('D', (), {'strings': [sdi]})())
+    if [utf16(x) for x in listed] != [got]:
+        return [utf16(x) for x in listed], -1          # DEX.get_strings lists another text than the string item holds
+    return got, f.tell()
 
 
 def concrete(c):
@@ -276,6 +285,8 @@ def replay(w):
         except Exception as e:
             return True, 'units %r raised %r' % (w['units'], e)
         exp = (w['units'], 1 + len(enc_units(w['units'])) + 1)
+        if pos == -1:
+            return True, 'MUTF-8 of UTF-16 units %s: DEX.get_strings lists %r' % ([hex(u) for u in w['units']], got)
         return (got, pos) != exp, 'MUTF-8 of UTF-16 units %s decoded to %s (stream at %d, expected %d)' % (
             [hex(u) for u in w['units']], [hex(u) for u in got], pos, exp[1])
     if w['kind'] == 'reader':
